@@ -32,6 +32,10 @@ func c07Opts() *neat.Options {
 	vAssume(o.DisjointCoeff >= 0 && o.DisjointCoeff <= 100)
 	vAssume(o.ExcessCoeff >= 0 && o.ExcessCoeff <= 100)
 	vAssume(o.MutdiffCoeff >= 0 && o.MutdiffCoeff <= 100)
+	// the distance is a function of the two genomes and the three coefficients only: the speciation threshold (any value)
+	// must not influence it
+	o.CompatThreshold = vFloat("compat_threshold")
+	vAssume(o.CompatThreshold >= 0 && o.CompatThreshold <= 100)
 	return o
 }
 
@@ -145,6 +149,78 @@ func vc07Self(n int) {
 	vAssertEqF(a.compatibility(b, o), a.compatFast(b, o), "option 'fast' selects the fast method")
 	vReach("end")
 }
+
+// c07Partner: a genome sharing the first k innovation numbers of a (own mutation numbers), followed by extra own genes
+// whose innovation numbers are symbolic and ascending (anywhere relative to a's remaining genes).
+func c07Partner(a *Genome, k, extra int) *Genome {
+	in, out := a.Nodes[0], a.Nodes[1]
+	genes := make([]*Gene, 0, k+extra)
+	prev := 0
+	for i := 0; i < k; i++ {
+		mut := a.Genes[i].MutationNum + float64(i%3)
+		if i < 3 {
+			mut = vFloat("b.mut")
+			vAssume(mut >= -1000 && mut <= 1000)
+		}
+		genes = append(genes, NewGene(mut, in, out, false, a.Genes[i].InnovationNum, mut))
+	}
+	for i := 0; i < extra; i++ {
+		innov := vInt("b.innov")
+		vAssume(innov > prev)
+		if k > 0 {
+			vAssume(int64(innov) > a.Genes[k-1].InnovationNum)
+		}
+		vAssume(innov <= 1000)
+		prev = innov
+		mut := vFloat("b.mut")
+		vAssume(mut >= -1000 && mut <= 1000)
+		genes = append(genes, NewGene(mut, in, out, false, int64(innov), mut))
+	}
+	return NewGenome(2, nil, []*network.NNode{in, out}, genes)
+}
+
+// large genomes: a genome of n genes against its own prefix (empty, half, all but one, all) plus 0..1 genes of the
+// partner's own - the sizes real populations reach, where anything that depends on the gene count would show
+func vc07Large(n int) {
+	// innovation numbers 2, 4, .., 2n (concrete: symbolic ones fork at every comparison of the walk); the partner's own
+	// gene may fall between any two of them, on one of them, or beyond
+	a := c07Genome("a", n)
+	for i, g := range a.Genes {
+		g.InnovationNum = int64(2 * (i + 1))
+		g.MutationNum = float64(i%5) / 4 // concrete as well; the partner's first three shared genes differ symbolically
+	}
+	var k int
+	switch vChoice("shared prefix", 4) {
+	case 0:
+		k = 0
+	case 1:
+		k = n / 2
+	case 2:
+		k = n - 1
+	default:
+		k = n
+	}
+	b := c07Partner(a, k, vChoice("own genes", 2))
+	o := c07Opts()
+	// the mutation-difference coefficient is fixed here: coefficient x mean of two dozen symbolic differences is a
+	// non-linear term the solvers do not finish; the other two coefficients and the threshold stay symbolic
+	o.MutdiffCoeff = 3
+	lin, fast := a.compatLinear(b, o), a.compatFast(b, o)
+	e, d, w := specEDW(a, b)
+	want := o.ExcessCoeff*e + o.DisjointCoeff*d + o.MutdiffCoeff*w
+	vObserveF("linear", lin)
+	vObserveF("fast", fast)
+	vAssertEqF(lin, want, "linear method = formula")
+	vAssertEqF(fast, want, "fast method = formula")
+	vAssertEqF(b.compatFast(a, o), fast, "fast method symmetric")
+	vAssertEqF(b.compatLinear(a, o), lin, "linear method symmetric")
+	vAssertEqF(a.compatLinear(a, o), 0, "linear distance of a genome to itself is zero")
+	vAssertEqF(a.compatFast(a, o), 0, "fast distance of a genome to itself is zero")
+	vReach("end")
+}
+
+func VC07_Large_Quick()    { vc07Large(24) }
+func VC07_Large_Thorough() { vc07Large(40) }
 
 func VC07_Self_Quick()    { vc07Self(3) }
 func VC07_Self_Thorough() { vc07Self(5) }
